@@ -21,7 +21,7 @@ RULE = ("case = name-list string: all token sequences <= L over the alphabet + r
 ASSUMPTIONS = ["escaped characters and '~' are neither whitespace nor part of the word 'and' (statement)"]
 MIN = {"split_names_post": (100000, 1000000), "reference_split": (100000, 1000000), "middleware_fields": (2000, 20000)}
 
-ALPHA = ["Aa", "bb", "and", "AND", "aNd", "an", "d", " ", "\t", "\n", "~", "{", "}", "{x and y}", "\\'", "\\\\", "\\a", ","]
+ALPHA = ["Aa", "bb", "and", "AND", "aNd", "an", "d", " ", "\t", "\n", "~", "{", "}", "{x and y}", "\\'", "\\\\", "\\a", ",", "\\"]
 
 
 def _L(tier):
@@ -36,7 +36,7 @@ PERSONS = ["Donald E. Knuth", "Knuth, Donald E.", "von Beethoven, Ludwig", "{Sim
            "\\'Etienne Marc", "Jean~Paul", "{\\'E}douard", "A. {and} B.", "d'and", "Hand And", "\\and X", "X\\ and", "{and}", "Brand", "a", "AND1",
            "Per Brinch Hansen", "de la Vall{\\'e}e Poussin, Charles", "X,", "jr, Y, Z",
            "Johann Strauß", "İbrahim Ağa", "ﬁnn ﬂuß", "Éric Ñandú", "Ǆemal", "ΐota", "李 四", "ŉ", "and ß"]
-SEPS = [" and ", " AND ", " And ", "\nand\t", "  and  ", " and\n", "\tand ", " and and ", " an d ", " and, ", " and~", "~and ", " a\\'nd ", " {and} "]
+SEPS = ["\\  and ", "\\ and ", " and \\ ", " and ", " AND ", " And ", "\nand\t", "  and  ", " and\n", "\tand ", " and and ", " an d ", " and, ", " and~", "~and ", " a\\'nd ", " {and} "]
 
 
 def cases(tier, seed, shard, nshards):
